@@ -19,6 +19,7 @@ CONTROLS = {
     "CancelOnShutdown": [("CancelOnShutdown.mc.cfg", {"Bug": '"no_track"'}, "ContractHolds"),
                          ("CancelOnShutdown.mc.cfg", {"Bug": '"skip_one"'}, "ContractHolds"),
                          ("CancelOnShutdown.mc.cfg", {"Bug": '"snapshot_before_gate"'}, "ContractHolds"),
+                         ("CancelOnShutdown.mc.cfg", {"Bug": '"submit_cancels_late"'}, "ContractHolds"),
                          ("CancelOnShutdown.mc.cfg", {"AsShipped_D2": "TRUE"}, "NoABBA")],
     "FutureImpl": [("FutureImpl.mc.cfg", {"Bug": '"append_when_done"'}, "NoCallbackLeft"),
                    ("FutureImpl.mc.cfg", {"Bug": '"keep_callbacks"'}, "NoCallbackLeft"),
